@@ -1187,7 +1187,7 @@ func c3ObjectElems(c *Ctx, fn *ssa.Function, byAddr bool) {
 			n++
 		}
 	}
-	if n == 0 {
+	if n == 0 || app != nil && app.Parent() != fn {
 		if c3ObjectElemsViaHelper(c, fn, byAddr, isApp) {
 			return
 		}
